@@ -124,3 +124,10 @@ def glob_literal(pat: str, s: str) -> bool:
                 return True
         return False
     return real == ref(parts, s) or fail("glob2re-vs-reference")
+
+
+def same_finder_instance(types, n: int) -> bool:
+    from spil import Sid, conf
+
+    fs = [conf.get_finder_for(Sid(T + ":" + "/".join(["*"] * n))) for T in types]
+    return all(f is fs[0] for f in fs) or fail("different-finder-instances-for-sibling-types")
